@@ -90,6 +90,54 @@ func highcmd(w []string) bool {
 		guard("end err ", func() { finish(hd.IndexedSelectEq(w[1], w[2], hkey(w[3]), rowcb, cols(w[4])...)) })
 	case w[0] == "pkselect" && len(w) == 4:
 		guard("end err ", func() { finish(hd.PKSelect(w[1], hkey(w[2]), rowcb, cols(w[3])...)) })
+	case w[0] == "schema" && len(w) == 2:
+		guard("schema err ", func() {
+			pager.Events = nil
+			if err := db.RLock(); err != nil {
+				fmt.Fprintf(out, "schema err lock\n")
+				return
+			}
+			defer db.RUnlock()
+			sc, err := db.Schema(h.Unhex(w[1]))
+			if err != nil {
+				fmt.Fprintf(out, "schema err %s\n", h.ErrKind(err))
+				return
+			}
+			d, plain := h.ShowSchema(sc)
+			fmt.Fprintf(out, "schema %s plain=%v\n", d, plain)
+		})
+	case w[0] == "hselect" && len(w) == 5:
+		limit = atoi(w[3])
+		guard("end err ", func() {
+			err := hd.SelectDone(h.Unhex(w[2]), func(r sqlittle.Row) bool {
+				rowcb(r)
+				if limit > 0 && n >= limit {
+					stopped = true
+				}
+				return stopped
+			}, h.UnhexList(w[4])...)
+			finish(err)
+		})
+	case w[0] == "hselectrowid" && len(w) == 5:
+		guard("end err ", func() {
+			r, err := hd.SelectRowid(h.Unhex(w[2]), atoi64(w[3]), h.UnhexList(w[4])...)
+			if err == nil && r != nil {
+				rowcb(r)
+			}
+			finish(err)
+		})
+	case w[0] == "hiselect" && len(w) == 5:
+		guard("end err ", func() {
+			finish(hd.IndexedSelect(h.Unhex(w[2]), h.Unhex(w[3]), rowcb, h.UnhexList(w[4])...))
+		})
+	case w[0] == "hiselecteq" && len(w) == 6:
+		guard("end err ", func() {
+			finish(hd.IndexedSelectEq(h.Unhex(w[2]), h.Unhex(w[3]), hkey(w[4]), rowcb, h.UnhexList(w[5])...))
+		})
+	case w[0] == "hpkselect" && len(w) == 5:
+		guard("end err ", func() {
+			finish(hd.PKSelect(h.Unhex(w[2]), hkey(w[3]), rowcb, h.UnhexList(w[4])...))
+		})
 	case w[0] == "columns" && len(w) == 2:
 		guard("end err ", func() {
 			cs, err := hd.Columns(w[1])
